@@ -18,30 +18,39 @@ Theorem C20_cli_command_shape : forall v ns t,
 Proof. exact cli_command_shape. Qed.
 Print Assumptions C20_cli_command_shape.
 
-(* for every command, whether or not it (still) exists, and EVERY list of events — any
-   number of workers, any number of deliveries and re-deliveries, any interleaving of
-   the workers' steps, any answers of the Delete calls that the API-server oracle allows
-   (OK only if present and then absent, NotFound only if absent, errors with or without
-   effect at any time) *)
-Theorem C20_at_most_once : forall c b evs, let s := crun c b evs in
+(* for every command, whether or not it (still) exists, every retry budget (maxRequeueNum,
+   -1 = retry for ever) and EVERY list of events — any number of deliveries (object copies:
+   add notifications, relists, restarts), any interleaving of the steps, any answers of the
+   Delete calls that the API-server oracle allows (OK only if present and then absent,
+   NotFound only if absent, errors with or without effect at any time, hence also runs of
+   more than maxRequeueNum failures and the resulting DROPS).  Since [evs] is arbitrary the
+   statement holds after every prefix of every history: triggered <= deleted <= 1. *)
+Theorem C20_at_most_once : forall mx c b evs, let s := crun mx c b evs in
   (length (enq s) <= 1)%nat /\
   (length (enq s) <= count_out DOk (log s) <= 1)%nat /\
+  prefix_ok 0 (log s) (seen s) = true /\
   Forall (fun r => r = req_of c) (enq s) /\
   (enq s <> [] -> present s = false) /\
   (b = false -> enq s = []) /\
-  retries s = (count_out DErr (log s) + count_out DErrApplied (log s))%nat /\
+  (retries s + drops s = count_out DErr (log s) + count_out DErrApplied (log s))%nat /\
   (quiescent s -> length (enq s) = count_out DOk (log s)).
 Proof. exact at_most_once. Qed.
 Print Assumptions C20_at_most_once.
 
-(* on an error answer the delivery is handed back for a retry and enqueues nothing *)
-Theorem C20_error_never_executes : forall c s w o,
-  o = DErr \/ o = DErrApplied ->
-  enq (cstep c s (CDelete w o)) = enq s /\
-  (wget s w = WGot -> wget (cstep c s (CDelete w o)) w = WIdle /\
-                      retries (cstep c s (CDelete w o)) = S (retries s)).
+(* on an error answer the delivery is retried (same object, one more failure) or, with the
+   budget exhausted, dropped; either way it enqueues nothing: a dropped command triggers nothing *)
+Theorem C20_error_never_executes : forall mx c s w n o,
+  o = DErr \/ o = DErrApplied -> wget s w = WGot n ->
+  let s' := cstep mx c s (CDelete w o) in
+  enq s' = enq s /\
+  (budget mx n = true -> wget s' w = WGot (S n) /\ retries s' = S (retries s) /\ drops s' = drops s) /\
+  (budget mx n = false -> wget s' w = WIdle /\ drops s' = S (drops s) /\ retries s' = retries s).
 Proof. exact error_never_executes. Qed.
 Print Assumptions C20_error_never_executes.
+
+Theorem C20_unlimited_retries_never_drop : forall c b evs, drops (crun (-1) c b evs) = 0%nat.
+Proof. exact no_drop_unlimited. Qed.
+Print Assumptions C20_unlimited_retries_never_drop.
 
 (* the CLI against a faulty API server, for EVERY answer to the GET and EVERY script of
    answers to the POST (created / persisted-then-Timeout / Timeout / ServerTimeout / 5xx /
@@ -83,14 +92,23 @@ Theorem C20_law_cli_accepts_model : forall v ns t, law_cli v ns t (cli_create v 
 Proof. exact law_cli_holds. Qed.
 Print Assumptions C20_law_cli_accepts_model.
 
-Theorem C20_law_amo_accepts_model : forall c b evs, let s := crun c b evs in
-  law_amo c b (log s) (enq s) (present s) (retries s) false = true.
+Theorem C20_law_amo_accepts_model : forall mx c b evs, let s := crun mx c b evs in
+  law_amo mx c b (log s) (seen s) (enq s) (present s) (retries s) false = true \/ mx = -1 /\ drops s <> 0%nat.
 Proof. exact law_amo_holds. Qed.
 Print Assumptions C20_law_amo_accepts_model.
 
 Example C20_nonvacuous :
-  let s := crun ex_cmd true [CDeliver 0; CDeliver 1; CDelete 0 DErr; CDelete 1 DOk; CDeliver 0;
+  let s := crun (-1) ex_cmd true [CDeliver 0; CDeliver 1; CDelete 0 DErr; CDelete 1 DOk;
                              CDelete 0 DNotFound; CEnqueue 1; CDeliver 2; CDelete 2 DOk] in
   enq s = [(7, 3, 1)] /\ present s = false /\ log s = [DErr; DOk; DNotFound] /\ retries s = 1%nat /\
-  wget s 2 = WGot.
+  wget s 2 = WGot 0.
 Proof. exact ex_race. Qed.
+
+(* maxRequeueNum = 2, three failed Deletes: dropped without executing, command still there;
+   the relisted delivery deletes it and executes once *)
+Example C20_nonvacuous_drop :
+  let s1 := crun 2 ex_cmd true [CDeliver 0; CDelete 0 DErr; CDelete 0 DErr; CDelete 0 DErr] in
+  enq s1 = [] /\ present s1 = true /\ drops s1 = 1%nat /\ retries s1 = 2%nat /\ wget s1 0 = WIdle /\
+  let s2 := fold_left (cstep 2 ex_cmd) [CDeliver 0; CDelete 0 DOk; CEnqueue 0] s1 in
+  enq s2 = [(7, 3, 1)] /\ present s2 = false /\ seen s2 = [0; 0; 0; 0]%nat.
+Proof. exact ex_drop. Qed.
